@@ -11,7 +11,31 @@ Helper lemmas for C02 (hook value life-cycle; core Lean only, no Mathlib).
 * per-operation stability lemmas used for the induction over histories in `PyrollProps/C02.lean`.
 -/
 
+-- every unfolding of `step` names the lemmas about the generated source tables, whether the goal has that case or not
+set_option linter.unusedSimpArgs false
+
 namespace Life
+
+/-! ### what the model consumes from the GENERATED source tables (`PyrollModel/Gen/C02Hooks.lean`)
+
+`hasSet`, `hasCached`, `reeval` and `noneOutcome` are the model instantiated with what was read from `pyroll/core/hooks.py`
+on this run; these lemmas evaluate them for the generated values and are the only places where the proofs look at the
+tables.  A source change that alters one of them (`has_set` looking into `__cache__`, `reevaluate_cache` clearing or going
+through the read path, the `None` check dropped or moved behind the store) makes the lemma - and the theorems - fail to build. -/
+
+/-- `has_set` tests the keys of `__dict__` -/
+@[simp] theorem hasSet_gen (st : State) (i : Inst) (n : Name) : hasSet st i n = (lookup n (st.obj i).dict).isSome := rfl
+
+/-- `has_cached` tests the keys of `__cache__` -/
+@[simp] theorem hasCached_gen (st : State) (i : Inst) (n : Name) :
+    hasCached st i n = (lookup n (st.obj i).cache).isSome := rfl
+
+/-- `reevaluate_cache` recomputes every remembered name with `get_result` and stores the result -/
+@[simp] theorem reeval_gen (fuel : Nat) (i : Inst) (st : State) :
+    reeval fuel i st = reevalLoop fuel i st (keys (st.obj i).cache) := rfl
+
+/-- a `None` result raises AttributeError and nothing is stored -/
+@[simp] theorem noneOutcome_gen (i : Inst) (n : Name) (s : State) : noneOutcome i n s = (s, .attrErr) := rfl
 
 /-! ### python `dict` primitives -/
 
@@ -335,7 +359,7 @@ theorem combine_fuel {k c : Int} {x : State × Res} (h : (combine k c x).2 ≠ .
 
 theorem finishGet_fuel {i : Inst} {n : Name} {x : State × Res} (h : (finishGet i n x).2 ≠ .fuelOut) :
     x.2 ≠ .fuelOut := by
-  obtain ⟨s, r⟩ := x; cases r <;> simp_all [finishGet]
+  obtain ⟨s, r⟩ := x; cases r <;> simp_all [finishGet, noneOutcome_gen]
 
 theorem ev_succ : ∀ (f : Nat) (st : State) (t : Task), (ev f st t).2 ≠ .fuelOut → ev (f + 1) st t = ev f st t := by
   intro f
@@ -943,11 +967,11 @@ theorem setObj_self (s : State) (i : Inst) (o : Obj) : (s.setObj i o).obj i = o 
 
 theorem step_n_mono (fuel : Nat) (st : State) (op : Op) : st.n ≤ (step fuel st op).1.n := by
   cases op with
-  | read i n => simp only [step]; rw [(ev_pres _ _ _).n]; exact Nat.le_refl _
-  | reevaluate i => simp only [step]; rw [(reevalLoop_pres _ _ _ _).n]; exact Nat.le_refl _
-  | evalRoot i => simp only [step]; rw [(rootLoop_pres _ _ _ _ _).n]; exact Nat.le_refl _
+  | read i n => simp only [step, reeval_gen]; rw [(ev_pres _ _ _).n]; exact Nat.le_refl _
+  | reevaluate i => simp only [step, reeval_gen]; rw [(reevalLoop_pres _ _ _ _).n]; exact Nat.le_refl _
+  | evalRoot i => simp only [step, reeval_gen]; rw [(rootLoop_pres _ _ _ _ _).n]; exact Nat.le_refl _
   | hasValue i n =>
-    simp only [step]
+    simp only [step, reeval_gen]
     have h := (ev_pres fuel { st with trace := [] } (.get i n)).n
     split <;> (next h' => rw [h'] at h; simp only; rw [h]; exact Nat.le_refl _)
   | newInst c => simp [step, State.setObj]
@@ -961,10 +985,10 @@ theorem step_dict_stable (fuel : Nat) (st : State) (op : Op) (i : Inst) (n : Nam
   cases op with
   | defClass c mro => simp [step]
   | newInst c =>
-    simp only [step]; rw [setObj_other _ _ _ _ (Nat.ne_of_lt hi)]
-  | read j m => simp only [step]; rw [(ev_pres _ _ _).dict]
+    simp only [step, reeval_gen]; rw [setObj_other _ _ _ _ (Nat.ne_of_lt hi)]
+  | read j m => simp only [step, reeval_gen]; rw [(ev_pres _ _ _).dict]
   | assign j m v =>
-    simp only [step]
+    simp only [step, reeval_gen]
     by_cases hj : i = j
     · subst hj
       have hm : n ≠ m := by
@@ -972,16 +996,16 @@ theorem step_dict_stable (fuel : Nat) (st : State) (op : Op) (i : Inst) (n : Nam
       exact assign_lookup_ne _ _ hm _
     · rw [assign_other _ _ _ _ _ hj]
   | delete j m =>
-    simp only [step]
+    simp only [step, reeval_gen]
     by_cases hj : i = j
     · subst hj
       have hm : n ≠ m := by
         intro hm; subst hm; simp [Op.setsExplicit] at h
       rw [setObj_self]; exact lookup_del_ne hm _
     · rw [setObj_other _ _ _ _ hj]
-  | reevaluate j => simp only [step]; rw [(reevalLoop_pres _ _ _ _).dict]
+  | reevaluate j => simp only [step, reeval_gen]; rw [(reevalLoop_pres _ _ _ _).dict]
   | clearCache j =>
-    simp only [step]
+    simp only [step, reeval_gen]
     by_cases hj : i = j
     · subst hj; rw [setObj_self]
     · rw [setObj_other _ _ _ _ hj]
@@ -991,22 +1015,22 @@ theorem step_dict_stable (fuel : Nat) (st : State) (op : Op) (i : Inst) (n : Nam
   | hasCached j m => simp [step]
   | hasSetOrCached j m => simp [step]
   | hasValue j m =>
-    simp only [step]
+    simp only [step, reeval_gen]
     have h1 := (ev_pres fuel { st with trace := [] } (.get j m)).dict i
     split <;> (next h' => rw [h'] at h1; simp only; rw [h1])
   | setRoots l => simp [step]
   | evalRoot j =>
-    simp only [step]
+    simp only [step, reeval_gen]
     have hj : i ≠ j := by
       intro hj; subst hj; simp [Op.setsExplicit] at h
     rw [(rootLoop_pres _ _ _ _ _).dictOther i hj]
   | setFallback j k =>
-    simp only [step]
+    simp only [step, reeval_gen]
     by_cases hj : i = j
     · subst hj; rw [setObj_self]
     · rw [setObj_other _ _ _ _ hj]
   | handOver j c =>
-    simp only [step]; rw [setObj_other _ _ _ _ (Nat.ne_of_lt hi)]
+    simp only [step, reeval_gen]; rw [setObj_other _ _ _ _ (Nat.ne_of_lt hi)]
 
 /-- a plain explicit value of an existing instance that nobody assigns or deletes by hand stays a plain explicit value
 (root evaluation may replace it by the new plain value) -/
@@ -1019,7 +1043,7 @@ theorem step_plain_stays (fuel : Nat) (st : State) (op : Op) (i : Inst) (n : Nam
     | evalRoot j =>
       have hj : j = i := by simpa [Op.setsExplicit] using hr
       subst hj
-      simp only [step]
+      simp only [step, reeval_gen]
       exact rootLoop_plain_stays fuel j n _ _ _ hp
     | assign j m v => simp [Op.setsExplicit, Op.userSets] at hr h; exact absurd (hr.2) (h hr.1)
     | delete j m => simp [Op.setsExplicit, Op.userSets] at hr h; exact absurd (hr.2) (h hr.1)
@@ -1032,21 +1056,21 @@ theorem step_cache_stable (fuel : Nat) (st : State) (op : Op) (i : Inst) (n : Na
     lookup n ((step fuel st op).1.obj i).cache = some (some v) := by
   cases op with
   | defClass c mro => simpa [step] using hc
-  | newInst c => simp only [step]; rw [setObj_other _ _ _ _ (Nat.ne_of_lt hi)]; exact hc
-  | read j m => simp only [step]; exact (ev_pres _ _ _).cacheMono i n v hc
-  | assign j m w => simp only [step]; rw [assign_cache]; exact hc
+  | newInst c => simp only [step, reeval_gen]; rw [setObj_other _ _ _ _ (Nat.ne_of_lt hi)]; exact hc
+  | read j m => simp only [step, reeval_gen]; exact (ev_pres _ _ _).cacheMono i n v hc
+  | assign j m w => simp only [step, reeval_gen]; rw [assign_cache]; exact hc
   | delete j m =>
-    simp only [step]
+    simp only [step, reeval_gen]
     by_cases hj : i = j
     · subst hj; rw [setObj_self]; exact hc
     · rw [setObj_other _ _ _ _ hj]; exact hc
   | reevaluate j =>
-    simp only [step]
+    simp only [step, reeval_gen]
     have hj : i ≠ j := by
       intro hj; subst hj; simp [Op.resetsCache] at h
     rw [(reevalLoop_pres _ _ _ _).other i hj]; exact hc
   | clearCache j =>
-    simp only [step]
+    simp only [step, reeval_gen]
     have hj : i ≠ j := by
       intro hj; subst hj; simp [Op.resetsCache] at h
     rw [setObj_other _ _ _ _ hj]; exact hc
@@ -1056,17 +1080,17 @@ theorem step_cache_stable (fuel : Nat) (st : State) (op : Op) (i : Inst) (n : Na
   | hasCached j m => simpa [step] using hc
   | hasSetOrCached j m => simpa [step] using hc
   | hasValue j m =>
-    simp only [step]
+    simp only [step, reeval_gen]
     have h1 := (ev_pres fuel { st with trace := [] } (.get j m)).cacheMono i n v hc
     split <;> (next h' => rw [h'] at h1; exact h1)
   | setRoots l => simpa [step] using hc
-  | evalRoot j => simp only [step]; exact (rootLoop_pres _ _ _ _ _).cacheMono i n v hc
+  | evalRoot j => simp only [step, reeval_gen]; exact (rootLoop_pres _ _ _ _ _).cacheMono i n v hc
   | setFallback j k =>
-    simp only [step]
+    simp only [step, reeval_gen]
     by_cases hj : i = j
     · subst hj; rw [setObj_self]; exact hc
     · rw [setObj_other _ _ _ _ hj]; exact hc
-  | handOver j c => simp only [step]; rw [setObj_other _ _ _ _ (Nat.ne_of_lt hi)]; exact hc
+  | handOver j c => simp only [step, reeval_gen]; rw [setObj_other _ _ _ _ (Nat.ne_of_lt hi)]; exact hc
 
 /-! ### independence of instances -/
 
@@ -1120,32 +1144,32 @@ theorem step_frame (fuel : Nat) (st : State) (op : Op) (i : Inst) (hi : i < st.n
   have ne : ∀ j, op.target = some j → i ≠ j := fun j hj e => ht (by rw [hj, e])
   cases op with
   | defClass c mro => simp [step]
-  | newInst c => simp only [step]; rw [setObj_other _ _ _ _ (Nat.ne_of_lt hi)]
-  | read j m => simp only [step]; exact ev_frame _ _ (.get j m) i (ne j rfl)
-  | assign j m w => simp only [step]; exact assign_other _ _ _ _ _ (ne j rfl)
-  | delete j m => simp only [step]; exact setObj_other _ _ _ _ (ne j rfl)
-  | reevaluate j => simp only [step]; exact (reevalLoop_pres _ _ _ _).other i (ne j rfl)
-  | clearCache j => simp only [step]; exact setObj_other _ _ _ _ (ne j rfl)
+  | newInst c => simp only [step, reeval_gen]; rw [setObj_other _ _ _ _ (Nat.ne_of_lt hi)]
+  | read j m => simp only [step, reeval_gen]; exact ev_frame _ _ (.get j m) i (ne j rfl)
+  | assign j m w => simp only [step, reeval_gen]; exact assign_other _ _ _ _ _ (ne j rfl)
+  | delete j m => simp only [step, reeval_gen]; exact setObj_other _ _ _ _ (ne j rfl)
+  | reevaluate j => simp only [step, reeval_gen]; exact (reevalLoop_pres _ _ _ _).other i (ne j rfl)
+  | clearCache j => simp only [step, reeval_gen]; exact setObj_other _ _ _ _ (ne j rfl)
   | addImpl id c m b => simp [step]
   | removeImpl id => simp [step]
   | hasSet j m => simp [step]
   | hasCached j m => simp [step]
   | hasSetOrCached j m => simp [step]
   | hasValue j m =>
-    simp only [step]
+    simp only [step, reeval_gen]
     have h1 := ev_frame fuel { st with trace := [] } (.get j m) i (ne j rfl)
     split <;> (next h' => rw [h'] at h1; exact h1)
   | setRoots l => simp [step]
-  | evalRoot j => simp only [step]; exact rootLoop_frame fuel j i (ne j rfl) _ _ _ (hfb j rfl)
-  | setFallback j k => simp only [step]; exact setObj_other _ _ _ _ (ne j rfl)
-  | handOver j c => simp only [step]; rw [setObj_other _ _ _ _ (Nat.ne_of_lt hi)]
+  | evalRoot j => simp only [step, reeval_gen]; exact rootLoop_frame fuel j i (ne j rfl) _ _ _ (hfb j rfl)
+  | setFallback j k => simp only [step, reeval_gen]; exact setObj_other _ _ _ _ (ne j rfl)
+  | handOver j c => simp only [step, reeval_gen]; rw [setObj_other _ _ _ _ (Nat.ne_of_lt hi)]
 
 /-! ### reading the loops off a `step` -/
 
 theorem evalRoot_loop {fuel : Nat} {st fin : State} {i : Inst} {out : List Val}
     (h : step fuel st (.evalRoot i) = (fin, .vals .none out)) :
     rootLoop fuel i { st with trace := [] } st.roots [] = (fin, .none, out) := by
-  simp only [step] at h
+  simp only [step, reeval_gen] at h
   generalize rootLoop fuel i { st with trace := [] } st.roots [] = x at h
   obtain ⟨a, b, c⟩ := x
   simp only [Prod.mk.injEq, Out.vals.injEq] at h
@@ -1154,7 +1178,7 @@ theorem evalRoot_loop {fuel : Nat} {st fin : State} {i : Inst} {out : List Val}
 theorem reevaluate_loop {fuel : Nat} {st fin : State} {i : Inst} {r : Res}
     (h : step fuel st (.reevaluate i) = (fin, .res r)) :
     reevalLoop fuel i { st with trace := [] } (keys (st.obj i).cache) = (fin, r) := by
-  simp only [step] at h
+  simp only [step, reeval_gen] at h
   generalize reevalLoop fuel i { st with trace := [] } (keys (st.obj i).cache) = x at h
   obtain ⟨a, b⟩ := x
   simp only [Prod.mk.injEq, Out.res.injEq] at h
@@ -1194,24 +1218,24 @@ theorem step_nodup (fuel : Nat) (st : State) (op : Op) (h : ∀ j, (keys (st.obj
     · rw [setObj_other _ _ _ _ hj]; exact hs j
   cases op with
   | defClass c mro => simpa [step] using h
-  | newInst c => simp only [step]; exact hset _ _ _ h0 (by simp [blank, keys])
-  | read i n => simp only [step]; exact (ev_pres _ _ _).nodup h0
-  | assign i n v => intro j; simp only [step]; rw [assign_cache]; exact h j
-  | delete i n => simp only [step]; exact hset _ _ _ h0 (h i)
-  | reevaluate i => simp only [step]; exact (reevalLoop_pres _ _ _ _).nodup h0
-  | clearCache i => simp only [step]; exact hset _ _ _ h0 (by simp [keys])
+  | newInst c => simp only [step, reeval_gen]; exact hset _ _ _ h0 (by simp [blank, keys])
+  | read i n => simp only [step, reeval_gen]; exact (ev_pres _ _ _).nodup h0
+  | assign i n v => intro j; simp only [step, reeval_gen]; rw [assign_cache]; exact h j
+  | delete i n => simp only [step, reeval_gen]; exact hset _ _ _ h0 (h i)
+  | reevaluate i => simp only [step, reeval_gen]; exact (reevalLoop_pres _ _ _ _).nodup h0
+  | clearCache i => simp only [step, reeval_gen]; exact hset _ _ _ h0 (by simp [keys])
   | addImpl id c n b => simpa [step] using h
   | removeImpl id => simpa [step] using h
   | hasSet i n => simpa [step] using h
   | hasCached i n => simpa [step] using h
   | hasSetOrCached i n => simpa [step] using h
   | hasValue i n =>
-    simp only [step]
+    simp only [step, reeval_gen]
     have h1 := (ev_pres fuel { st with trace := [] } (.get i n)).nodup h0
     split <;> (next h' => rw [h'] at h1; exact h1)
   | setRoots l => simpa [step] using h
-  | evalRoot i => simp only [step]; exact (rootLoop_pres _ _ _ _ _).nodup h0
-  | setFallback i k => simp only [step]; exact hset _ _ _ h0 (h i)
-  | handOver i c => simp only [step]; exact hset _ _ _ h0 (by simp [keys])
+  | evalRoot i => simp only [step, reeval_gen]; exact (rootLoop_pres _ _ _ _ _).nodup h0
+  | setFallback i k => simp only [step, reeval_gen]; exact hset _ _ _ h0 (h i)
+  | handOver i c => simp only [step, reeval_gen]; exact hset _ _ _ h0 (by simp [keys])
 
 end Life
